@@ -1235,3 +1235,28 @@ Proof.
     + discriminate.
     + unfold mk. destruct ((0 <=? len) && (len <=? cap)); discriminate.
 Qed.
+
+(* ------------------------------------------------------------------ *)
+(* call sites: the table is well formed - every Get site is classified as a
+   Get, every Put site carries a reason why the donated memory is dropped by
+   its owner in the same step (or under which documented API contract), and
+   nothing else (no method value, no other identifier of the pool packages)
+   is used.  That the table lists exactly the call sites of the current
+   source is the per-run obligation GenSites.sites_ok. *)
+Open Scope string_scope.
+Open Scope Z_scope.
+
+Lemma discipline_of_sites : forall f fn callee arg w, In ((f, fn, callee, arg), w) site_table ->
+  (w = GetSite /\ (callee = "byteslice.Get" \/ callee = "ringbuffer.Get")) \/
+  ((exists r, w = PutOwnedDropped r \/ w = PutApiContract r) /\
+   (callee = "byteslice.Put" \/ callee = "ringbuffer.Put")).
+Proof.
+  intros f fn callee arg w H. unfold site_table in H.
+  repeat (destruct H as [H|H];
+    [injection H as <- <- <- <- <-;
+     first [ left; split; [reflexivity|first [left; reflexivity|right; reflexivity]]
+           | right; split; [eexists; first [left; reflexivity|right; reflexivity]
+                           |first [left; reflexivity|right; reflexivity]] ]
+    |]).
+  destruct H.
+Qed.
